@@ -261,6 +261,8 @@ fn twin_c18_c19() -> R {
     let mut prev_max = 0usize;
     let mut sizes: Vec<usize> = (0..=top).collect();
     sizes.extend([20496 - 1, 20496, 20497, 30744, 30745, 30800]);
+    // "random larger n": beyond four hex digits of buffer length, around further multiples of the chunk size
+    sizes.extend((65530..=65560).chain(70000..=70010).chain([102480, 102489, 1 << 20, (1 << 20) + 77, 16 * 10248 + 9]));
     for &o in &sizes {
         let req = Request::post("http://a.test/x").body(()).unwrap();
         let mut flow = to_send_body(req)?;
@@ -275,7 +277,7 @@ fn twin_c18_c19() -> R {
             prev_max = m;
         }
         // the advertised maximum fits
-        if m > 0 && (o < 600 || o % 97 == 0 || (o % 10248) < 40 || (o % 10248) > 10200) {
+        if m > 0 && (o < 600 || o % 97 == 0 || (o % 10248) < 40 || (o % 10248) > 10200 || o > top) {
             n += 1;
             let input = vec![b'q'; m];
             let mut out = vec![0u8; o];
@@ -358,6 +360,8 @@ fn twin_c02_c16() -> R {
         vec![("authorization", "Bearer zz"), ("cookie", "jar=2")],
         vec![("x-b", "8"), ("x-a", "9"), ("cookie", "c=3")],
         vec![("accept", "*/*"), ("user-agent", "t")],
+        vec![("x-null", "present"), ("x", ""), ("te", "trailers")],
+        vec![("x-0", "0"), ("x-1", "1"), ("x-2", "2"), ("x-3", "3"), ("x-4", "4"), ("x-5", "5"), ("x-6", "6")],
     ];
     for depth in 0..=1 {
         for policy in [RedirectAuthHeaders::Never, RedirectAuthHeaders::SameHost] {
@@ -500,6 +504,9 @@ fn twin_c17() -> R {
         vec![("host", b"h.test"), ("host", b"i.test")],
         vec![("host", b"\xfe")],
         vec![("host", b"h.test")],
+        vec![("transfer-encoding", b"chunked"), ("content-length", b"abc")],
+        vec![("transfer-encoding", b"chunked"), ("content-length", b"5")],
+        vec![("transfer-encoding", b"gzip")],
     ];
     for m in &methods {
         for v in &versions {
@@ -515,7 +522,7 @@ fn twin_c17() -> R {
                     let http10_ok = matches!(*m, Method::GET | Method::HEAD | Method::POST);
                     let cl: Vec<&[u8]> = hs.iter().filter(|(k, _)| *k == "content-length").map(|(_, v)| *v).collect();
                     let hosts: Vec<&[u8]> = hs.iter().filter(|(k, _)| *k == "host").map(|(_, v)| *v).collect();
-                    let te = hs.iter().any(|(k, _)| *k == "transfer-encoding");
+                    let te = hs.iter().any(|(k, v)| *k == "transfer-encoding" && v.eq_ignore_ascii_case(b"chunked"));
                     let text = |v: &[u8]| v.iter().all(|c| (32..127).contains(c) || *c == 9);
                     let cl_bad = cl.first().map(|v| !text(v) || std::str::from_utf8(v).ok().and_then(|s| s.parse::<u64>().ok()).is_none()).unwrap_or(false);
                     let has_body_hdr = te || !cl.is_empty();
